@@ -37,7 +37,9 @@ pub fn worker(ctx: &mut Ctx) {
 pub fn plan(prop: &str, _tier: Tier) -> Vec<(String, u64)> {
     let v = |s: &str, n: u64| (s.to_string(), n);
     match prop {
-        "C01" | "C02" | "C04" | "C05" | "C06" | "C07" | "C08" | "C09" | "C10" | "C11" => vec![v("release", 16)],
+        "C01" | "C02" | "C04" | "C05" | "C06" | "C07" | "C08" | "C09" | "C11" => vec![v("release", 16)],
+        // f32 must also hold with debug assertions on (C03's clause, instantiated for f32)
+        "C10" => vec![v("release", 12), v("dbg", 4)],
         "C03" => match _tier {
             Tier::Quick => vec![v("release", 8), v("dbg", 8), v("asan", 8), v("miri", 8)],
             Tier::Thorough => vec![v("release", 16), v("dbg", 16), v("asan", 16), v("miri", 16), v("valgrind", 8)],
